@@ -26,6 +26,13 @@ def gen_case(seed):
                 if ids:
                     n, i = r.choice(ids)
                     s["req"] = {f"{n}:{i}": 1}
+    # batch sizes other than the default on some strategies (the loader must keep them per strategy)
+    rb = random.Random(f"{seed}:c19:batch")
+    if rb.random() < 0.5:
+        for p in w["profiles"].values():
+            for s in p["strategies"]:
+                if rb.random() < 0.4:
+                    s["batch"] = rb.choice([2, 4])
     # per-node SLOs on some nodes
     slo_mode = r.choice(["none", "none", "some", "all"])
     for g in w["graphs"]:
@@ -33,7 +40,7 @@ def gen_case(seed):
             if slo_mode == "all" or (slo_mode == "some" and r.random() < 0.4):
                 n["slo"] = r.choice([3, 7, 11, 20])
     case = {"seed": seed, "world": w, "format": r.choice(["json", "yaml"]),
-            "with_flags": r.random() < 0.6, "overrides": {}}
+            "with_flags": r.random() < 0.6, "overrides": {}, "terse": rb.random() < 0.5}
     if case["with_flags"]:
         ov = {}
         if r.random() < 0.2:
@@ -53,16 +60,23 @@ def gen_case(seed):
     return case
 
 
-def to_descriptions(w):
+def _strategy_desc(s, terse):
+    d = {"batch_size": s.get("batch", 1), "runtime": s["runtime"], "resource_requirements": dict(s["req"])}
+    if terse:
+        # optional keys whose value is the documented default are left out
+        if d["batch_size"] == 1:
+            del d["batch_size"]
+        if d["runtime"] == 0:
+            del d["runtime"]
+    return d
+
+
+def to_descriptions(w, terse=False):
     profiles = []
     for p in w["profiles"].values():
-        d = {"name": p["name"], "execution_strategies": [
-            {"batch_size": s.get("batch", 1), "runtime": s["runtime"], "resource_requirements": dict(s["req"])}
-            for s in p["strategies"]]}
+        d = {"name": p["name"], "execution_strategies": [_strategy_desc(s, terse) for s in p["strategies"]]}
         if p.get("loading"):
-            d["loading_strategies"] = [
-                {"batch_size": s.get("batch", 1), "runtime": s["runtime"], "resource_requirements": dict(s["req"])}
-                for s in p["loading"]]
+            d["loading_strategies"] = [_strategy_desc(s, terse) for s in p["loading"]]
         profiles.append(d)
     graphs = []
     for g in w["graphs"]:
@@ -138,7 +152,7 @@ def run_case(case):
             # violation of the description, not a defect
             g["release"] = {"type": "fixed", "period": g["release"]["period"], "invocations": 3,
                             "start": g["release"].get("start", 0)}
-    wl_desc, wk_desc = to_descriptions(w)
+    wl_desc, wk_desc = to_descriptions(w, terse=bool(case.get("terse")))
     tmp = tempfile.mkdtemp(prefix="erdos-verif-")
     outcome = "ended"
     try:
